@@ -195,7 +195,7 @@ func checkResume(c *Ctx, p *Prog, R *BusRoles) {
 		for _, b := range m.Blocks {
 			for _, in := range b.Instrs {
 				if mu, isMu := in.(*ssa.MapUpdate); isMu {
-					if tn, fld, _, isF := fieldLoad(mu.Map); isF && tn == "MemoryStore" && fld == "subscriptions" {
+					if tn, fld, _, isF := fieldLoad(mu.Map); isF && tn == "MemoryStore" && fld == discoverMem(p).Subs {
 						k, okK := stripConv(mu.Key).(*ssa.Parameter)
 						v, okV := stripConv(mu.Value).(*ssa.Parameter)
 						ok = okK && okV && k == m.Params[2] && v == m.Params[3]
@@ -212,7 +212,7 @@ func checkResume(c *Ctx, p *Prog, R *BusRoles) {
 		for _, b := range m.Blocks {
 			for _, in := range b.Instrs {
 				if lk, isLk := in.(*ssa.Lookup); isLk {
-					if tn, fld, _, isF := fieldLoad(lk.X); isF && tn == "MemoryStore" && fld == "subscriptions" {
+					if tn, fld, _, isF := fieldLoad(lk.X); isF && tn == "MemoryStore" && fld == discoverMem(p).Subs {
 						k, okK := stripConv(lk.Index).(*ssa.Parameter)
 						ok = okK && k == m.Params[2]
 					}
